@@ -306,6 +306,8 @@ pub fn gen_c01(seed: u64, thorough: bool) {
         }
         println!("{}", pipe_line("C01", &e, vdb, &lines, kind));
     }
+    // the same pipeline driven from the voice files alone (header, trees, PDFs, interpolation included)
+    gen_e2e(&mut rng, &src, "C01", if thorough { 400 } else { 24 });
 }
 
 // =========================================================================================== helpers
@@ -628,5 +630,98 @@ pub fn gen_c12(seed: u64, thorough: bool) {
         let (t1, t2) = (trajectories(&e1, &short).unwrap(), trajectories(&e2, &short).unwrap());
         push_u(&mut line, same_bits(&t1.2, &t2.2) as usize);
         println!("{}", line);
+    }
+}
+
+// =========================================================================================== e2e
+/// in-envelope setter calls, applied to `c` and returned in the `cond` op syntax
+pub fn envelope_ops(rng: &mut Rng, c: &mut jbonsai::engine::Condition, ns: usize) -> (String, usize) {
+    let mut s = String::new();
+    let mut n = 0;
+    let mut emit = |s: &mut String, name: &str, idx: Option<usize>, v: Option<f64>, u: Option<usize>| {
+        push_s(s, name);
+        if let Some(i) = idx { push_u(s, i); }
+        if let Some(x) = v { push_f(s, x); }
+        if let Some(x) = u { push_u(s, x); }
+    };
+    if rng.chance(0.8) { let v = rng.range(1, 24); c.set_fperiod(v); emit(&mut s, "fp", None, None, Some(v)); n += 1; }
+    if rng.chance(0.3) { let v = *rng.pick(&[8000usize, 16000, 22050, 44100, 48000, 96000]); c.set_sampling_frequency(v); emit(&mut s, "sf", None, None, Some(v)); n += 1; }
+    if rng.chance(0.5) { let v = rng.uniform(0.0, 0.8); c.set_alpha(v); emit(&mut s, "alpha", None, Some(v), None); n += 1; }
+    if rng.chance(0.3) { let v = rng.uniform(0.0, 0.8); c.set_beta(v); emit(&mut s, "beta", None, Some(v), None); n += 1; }
+    for i in 0..ns {
+        if rng.chance(0.4) { let v = rng.uniform(0.0, 2.0); c.set_gv_weight(i, v); emit(&mut s, "gv", Some(i), Some(v), None); n += 1; }
+        if rng.chance(0.4) { let v = *rng.pick(&[0.0, 1.0, 0.5, 0.2, 0.8, 0.35]); c.set_msd_threshold(i, v); emit(&mut s, "msd", Some(i), Some(v), None); n += 1; }
+    }
+    if rng.chance(0.4) { let v = rng.uniform(-24.0, 24.0); c.set_additional_half_tone(v); emit(&mut s, "ht", None, Some(v), None); n += 1; }
+    if rng.chance(0.4) { let v = rng.uniform(-20.0, 20.0); c.set_volume(v); emit(&mut s, "vol", None, Some(v), None); n += 1; }
+    if rng.chance(0.5) { let v = rng.log_uniform(0.25, 4.0); c.set_speed(v); emit(&mut s, "speed", None, Some(v), None); n += 1; }
+    (s, n)
+}
+
+/// the whole library from the voice FILES: the driver reads the same files and runs the Lean model
+pub fn e2e_line(kind: &str, paths: &[String], e: &Engine, ops: &str, nops: usize, lines: &[String]) -> String {
+    let ns = e.voices.global_metadata().num_streams;
+    let mut line = format!("e2e {}", paths.len());
+    for p in paths { push_s(&mut line, p); }
+    push_s(&mut line, kind);
+    push_u(&mut line, paths.len());
+    push_u(&mut line, ns);
+    let iw = e.condition.get_interporation_weight();
+    push_fs(&mut line, iw.get_duration());
+    for i in 0..ns { push_fs(&mut line, iw.get_parameter(i)); }
+    for i in 0..ns { push_fs(&mut line, iw.get_gv(i)); }
+    push_s(&mut line, "nops");
+    push_u(&mut line, nops);
+    line.push_str(ops);
+    let labs = Labels::load_from_strings(e.condition.get_sampling_frequency(), e.condition.get_fperiod(), lines).expect("labels");
+    push_u(&mut line, labs.labels().len());
+    for l in labs.labels() { push_s(&mut line, &esc(&l.to_string())); }
+    push_u(&mut line, labs.times().len());
+    for (s, t) in labs.times() { push_f(&mut line, *s); push_f(&mut line, *t); }
+    let owned = lines.to_vec();
+    match catch(std::panic::AssertUnwindSafe(|| e.synthesize(owned).map_err(|x| format!("{x}")))) {
+        Ok(Ok(w)) => { push_s(&mut line, "ok"); push_fs(&mut line, &w); }
+        Ok(Err(x)) => { push_s(&mut line, "err"); push_s(&mut line, &esc(&x)); }
+        Err(site) => { push_s(&mut line, "panic"); push_s(&mut line, &esc(&site)); }
+    }
+    line
+}
+
+pub fn gen_e2e(rng: &mut Rng, src: &Sources, tag: &str, n: usize) {
+    for i in 0..n {
+        // one voice (bundled or generated) or 2..3 compatible generated voices with random valid weights
+        let (paths, kind): (Vec<String>, &str) = if i % 4 == 0 {
+            (vec![BUNDLED_VOICE.to_string()], "bundled")
+        } else {
+            let k = if i % 4 == 3 { rng.range(2, 3) } else { 1 };
+            let cfg = VoiceCfg { nstream: rng.range(2, 3), stage: if rng.chance(0.6) { 0 } else { rng.range(1, 3) }, nstate: rng.range(1, 5), max_leaves: 6 };
+            let mseed = rng.next();
+            let ps: Vec<String> = (0..k).map(|j| {
+                let mut m = Rng(mseed);
+                let spec = VoiceSpec::random2(&mut m, rng, &cfg, &src.pool);
+                let path = format!("{}/voices/{}_e2e_{}_{}.htsvoice", work_dir(), tag, i, j);
+                spec.write(&path);
+                path
+            }).collect();
+            (ps, if k == 1 { "generated" } else { "blend" })
+        };
+        let mut e = match catch(std::panic::AssertUnwindSafe(|| Engine::load(&paths))) {
+            Ok(Ok(e)) => e,
+            other => { eprintln!("e2e: engine does not load: {:?}", other.map(|r| r.map(|_| ()).map_err(|x| format!("{x}")))); continue; }
+        };
+        let ns = e.voices.global_metadata().num_streams;
+        if paths.len() > 1 {
+            // random valid weights per quantity — weights are part of the case
+            let nv = paths.len();
+            let mut rw = |rng: &mut Rng| -> Vec<f64> { let mut w: Vec<f64> = (0..nv).map(|_| rng.unit()).collect(); let s: f64 = w.iter().sum(); for x in &mut w { *x /= s; } let s2: f64 = w.iter().sum(); if (s2 - 1.0).abs() > f64::EPSILON { w[nv - 1] += 1.0 - s2; } w };
+            let iw = e.condition.get_interporation_weight_mut();
+            let _ = iw.set_duration(&rw(rng));
+            for s in 0..ns { let _ = iw.set_parameter(s, &rw(rng)); let _ = iw.set_gv(s, &rw(rng)); }
+        }
+        let (ops, nops) = envelope_ops(rng, &mut e.condition, ns);
+        let nlab = if kind == "bundled" { rng.range(1, 2) } else { rng.range(1, 5) };
+        let recombine = rng.chance(0.5);
+        let lines = src.labels(rng, nlab, recombine);
+        println!("{}", e2e_line(kind, &paths, &e, &ops, nops, &lines));
     }
 }
